@@ -3,6 +3,9 @@ import json, time
 from lib import common, pipeline, programs, cases
 PROP = "C07"
 
+# LD A,I ; PUSH AF ; POP HL ; LD (4180h),HL : the flags LD A,I produced (P/V = IFF2) stay observable whatever follows
+LDAI = [0xED, 0x57, 0xF5, 0xE1, 0x22, 0x80, 0x41]
+
 def program(rng, final_ei=True):
     """register-transparent-handler friendly program: interrupts enabled, closed DI..EI sections, final EI; HALT."""
     code = [0x31, 0x00, 0xF0, 0xFB]
@@ -21,10 +24,11 @@ def program(rng, final_ei=True):
             elif k == 7: out += [0x21, 0x00, 0x40, 0x01, rng.below(5) + 2, 0x00, 0x3E, rng.below(3), 0xED, rng.choice([0xB1, 0xB9])]
             elif k == 8: out += [0x21, 0x00, 0x41, 0x01, 0x20, rng.below(3) + 1, 0xED, rng.choice([0xB3, 0xBB])]
             elif k == 9: out += [0xD3, 0x20]
-            elif k == 12: out += [0xED, 0x57, rng.choice([0x00, 0x47, 0x4F])]   # LD A,I (P/V = IFF2) then NOP / LD B,A / LD C,A
+            elif k == 12: out += LDAI   # LD A,I (P/V = IFF2), flags kept in memory
             else: out += [rng.choice([0x00, 0x07, 0x17, 0x2F, 0x37, 0xEB, 0xD9, 0x08])]
         return out
-    code += body(6)
+    first = body(6)
+    code += first + LDAI + body(1)
     if rng.chance(2, 3):
         # a closed DI .. EI section, usually containing a block instruction with several repetitions
         inner = body(2)
